@@ -85,6 +85,11 @@ def mask_file():
     a2.flat[1] = np.inf
     f.vars['A2'] = RVar(('t', 'z', 'x'), a2, attrs=OrderedDict([('units', 'ppb')]))
     # same SHAPE as A (t and z have equal lengths) but different dimensions: mask(where, dims=...) must skip it
+    # a variable of A's shape that already carries a mask of its own
+    ma = f.vars['A'].data.copy() + 2
+    mm = np.zeros(ma.shape, bool)
+    mm.flat[5] = True
+    f.vars['MA'] = RVar(('t', 'z', 'x'), ma, mm, OrderedDict([('units', 'ppb')]), fill=-999., masked=True)
     f.vars['AT'] = RVar(('z', 't', 'x'), f.vars['A'].data.copy() + 1, attrs=OrderedDict([('units', 'ppb')]))
     return f
 
@@ -110,6 +115,16 @@ class Prop(core.Prop):
                 'shapes': [(81,), (9, 9)] + ([(3, 27)] if tier == 'thorough' else []),
                 'eval_programs': len(EVALS), 'mask_predicates': PREDS}
 
+    def worker_init(self):
+        import os
+        import shutil
+        import tempfile
+        core.load_lib()
+        base = '/dev/shm' if os.path.isdir('/dev/shm') else None
+        self.tmp = tempfile.mkdtemp(prefix='verif_c06_', dir=base)
+        import atexit
+        atexit.register(shutil.rmtree, self.tmp, True)
+
     def groups(self, tier):
         b = self.bounds(tier)
         dts = DTYPES if tier == 'thorough' else ('f4', 'f8', 'i4', 'u1')
@@ -119,6 +134,7 @@ class Prop(core.Prop):
                     yield {'part': 'binop', 'ldt': ldt, 'rdt': rdt, 'shape': list(shape)}
         for i in range(len(EVALS)):
             yield {'part': 'eval', 'prog': i}
+        yield {'part': 'evalseq'}
         for r in range(0, len(PREDS) + 1):
             yield {'part': 'mask', 'npred': r}
 
@@ -130,6 +146,11 @@ class Prop(core.Prop):
         elif group['part'] == 'eval':
             for copyall in (False, True):
                 yield dict(group, copyall=copyall)
+        elif group['part'] == 'evalseq':
+            for first in ('N = A', 'N = A * 1', 'N = M'):
+                for second in ('P = A * 2', 'P = M + M0f', 'P = A + B'):
+                    for backing in ('memory', 'netcdf'):
+                        yield dict(group, first=first, second=second, backing=backing)
         else:
             for sub in itertools.combinations(PREDS, group['npred']):
                 for dims in (False, True):
@@ -313,6 +334,40 @@ class Prop(core.Prop):
         return result('viol' if vs else 'ok-eval', vs, st, 1, h64('eval', expr, case['copyall']),
                       rfile.canon(g) if not vs else None)
 
+    def run_evalseq(self, case):
+        """two evaluations on one file object; every variable of the first result is overwritten in between:
+        the second result must equal the one a fresh file gives"""
+        import os
+        P = lib.pnc()
+
+        def make():
+            f = lib.to_real(self.eval_file())
+            if case['backing'] == 'netcdf':
+                path = os.path.join(self.tmp, 'ev_%d.nc' % os.getpid())
+                if os.path.exists(path):
+                    os.unlink(path)
+                f.save(path, format='NETCDF4_CLASSIC', verbose=0).close()
+                f = P.pncopen(path, format='netcdf')
+            return f
+        sig = ('eval-sequence', case['backing'])
+        scope = dict(first=case['first'], second=case['second'], backing=case['backing'])
+        st = [h64('evalseq', case['first'], case['second'], case['backing'])]
+        vs = []
+        try:
+            with np.errstate(all='ignore'):
+                fresh = lib.snap(make().eval(case['second'], inplace=False))
+                f = make()
+                r1 = f.eval(case['first'], inplace=False)
+                lib.scribble(r1)
+                got = lib.snap(f.eval(case['second'], inplace=False))
+        except Exception as e:
+            vs.append(viol('in-domain-raises', sig, '%s: %r' % (type(e).__name__, e), exc=type(e).__name__, **scope))
+            return result('viol', vs, st)
+        d = rfile.file_diff(got, fresh)
+        if d:
+            vs.append(viol('depends-on-earlier-eval', sig, '; '.join(d)[:800], **scope))
+        return result('viol' if vs else 'ok-eval', vs, st, 3, st[0], rfile.canon(got) if not vs else None)
+
     # ------------------------------------------------------------------
     def run_mask(self, case):
         rf0 = mask_file()
@@ -352,6 +407,18 @@ class Prop(core.Prop):
             vs.append(viol('not-wellformed', sig, '; '.join(wf), **scope))
             return result('viol', vs, st)
         g = lib.snap(got)
+        # masking returns a new file: the source is left as it was, and asking again gives the same answer
+        if rfile.canon(lib.snap(real, cls='PseudoNetCDFFile')) != st[0]:
+            vs.append(viol('source-modified', sig, '; '.join(rfile.file_diff(lib.snap(real), rf))[:600]
+                           or 'source changed', **scope))
+        else:
+            try:
+                with np.errstate(all='ignore'):
+                    g2 = lib.snap(real.mask(**kw))
+                if rfile.canon(g2) != rfile.canon(g):
+                    vs.append(viol('second-call-differs', sig, '; '.join(rfile.file_diff(g2, g))[:600], **scope))
+            except Exception as e:
+                vs.append(viol('second-call-differs', sig, 'second call raised %r' % e, **scope))
         anyexp = False
         for k, v in rf.vars.items():
             if k not in g.vars:
